@@ -2,6 +2,7 @@ package h
 
 import (
 	"fmt"
+	"os"
 	"regexp"
 	"sort"
 	"strings"
@@ -70,13 +71,15 @@ func genC15(seed uint64, run int, tier string) *RunSpec {
 			default:
 				nc = editContent(c, fmt.Sprintf("alt%d", v))
 			}
-			// mtime: mostly advancing; sometimes equal to an earlier one or going backwards
+			// mtime: mostly advancing; sometimes equal to an earlier one, going backwards, or absent (zero)
 			m := mt(v)
-			switch r.Intn(8) {
+			switch r.Intn(10) {
 			case 0:
 				m = mt(r.Intn(v + 1))
 			case 1:
 				m = mt(v) - 5*gran
+			case 2:
+				m = 0
 			}
 			f.Versions = append(f.Versions, FileVersion{Content: nc, MtimeNs: m})
 		}
@@ -163,8 +166,31 @@ func execC15(spec *RunSpec) *Result {
 	for i, f := range spec.Files {
 		fileIdx[f.Name] = i
 	}
-	// loaded[file][mtime] = set of versions the long-lived engine read while the file had that mtime
-	loaded := map[string]map[int64]map[int]bool{}
+	// What the engine's template cache can know about a file: only pages and layouts go through the cached path
+	// (Vue.Render, directly or from Template.Render and the layout chain). Per such file: the mtime the cached
+	// path saw most recently and the content version it loaded most recently.
+	type cacheView struct {
+		seenMtime int64
+		loaded    map[int]bool // content versions read (by any path of that engine) while the cache kept seeing seenMtime
+		has       bool
+	}
+	// The harness engine holds two engines with separate template caches: the *Vue used by Vue.Render and the
+	// one inside the base Template (Load.Render, RenderFile, layout chain). The view is kept per cache.
+	views := map[string]map[string]*cacheView{"vue": {}, "tpl": {}}
+	cacheOf := func(entry string) string {
+		if entry == "Vue.Render" {
+			return "vue"
+		}
+		return "tpl"
+	}
+	loaded := map[string]map[int64]map[int]bool{} // coverage classification only
+	cachedPath := func(entry string) bool {
+		switch entry {
+		case "Vue.Render", "Load.Render", "RenderFile", "Base.RenderFile", "Base.Load.Render":
+			return true
+		}
+		return false
+	}
 	type pending struct {
 		i   int
 		op  OpSpec
@@ -184,26 +210,29 @@ func execC15(spec *RunSpec) *Result {
 			simrt.Advance(op.Ns)
 		default:
 			out := eng.Exec(i, op, nil)
-			// ambiguity as the cache sees it: current mtime equals an mtime under which other content was loaded earlier, or is zero
+			// Equal-mtime edit as the cache sees it: the file's current mtime is the one the cached path saw most
+			// recently, but the content differs from what it loaded then (this includes filesystems without
+			// mtimes: zero equals zero). Only then is the freshness claim void. An mtime the cache has seen
+			// change - also through a failed load - is a change it must notice.
 			amb := map[string][]int{}
+			view := views[cacheOf(op.Entry)]
 			for name, v := range cur {
 				fv := spec.Files[fileIdx[name]].Versions[v]
-				if fv.Deleted {
+				cv := view[name]
+				if fv.Deleted || cv == nil || !cv.has {
 					continue
 				}
-				for u := range loaded[name][fv.MtimeNs] {
-					if u != v {
-						amb[name] = append(amb[name], u)
-					}
-				}
-				if fv.MtimeNs == 0 {
-					for _, byM := range loaded[name] {
-						for u := range byM {
-							if u != v {
-								amb[name] = append(amb[name], u)
-							}
+				if fv.MtimeNs == cv.seenMtime {
+					for u := range cv.loaded {
+						if u != v {
+							amb[name] = append(amb[name], u)
 						}
 					}
+				}
+			}
+			if os.Getenv("SIM_DEBUG") != "" {
+				for name, cv := range view {
+					fmt.Fprintf(os.Stderr, "op %d %s: view[%s]=%+v cur=%d amb=%v reads=%d observed=%v\n", i, op.Entry, name, *cv, cur[name], amb[name], sfs.Reads(i, name), sfs.Observed(i)[name])
 				}
 			}
 			snap := map[string]int{}
@@ -211,6 +240,31 @@ func execC15(spec *RunSpec) *Result {
 				snap[k] = v
 			}
 			checks = append(checks, pending{i: i, op: op, out: out, cur: snap, amb: amb, flt: sfs.Faulted(i)})
+			// update the cache's view from this operation (cached path only, pages and layouts only)
+			if cachedPath(op.Entry) {
+				for name, mask := range sfs.Observed(i) {
+					if name != op.File && !strings.HasPrefix(name, "layouts/") {
+						continue
+					}
+					for v := 0; v < 32; v++ {
+						if mask&(1<<uint(v)) != 0 {
+							if view[name] == nil {
+								view[name] = &cacheView{}
+							}
+							m := spec.Files[fileIdx[name]].Versions[v].MtimeNs
+							if !view[name].has || view[name].seenMtime != m {
+								// the cache sees another mtime than before: whatever it held is out of date for it
+								view[name].seenMtime = m
+								view[name].loaded = map[int]bool{}
+								view[name].has = true
+							}
+							if sfs.Reads(i, name) > 0 {
+								view[name].loaded[v] = true
+							}
+						}
+					}
+				}
+			}
 			// record what this operation read
 			for name, mask := range sfs.Observed(i) {
 				if sfs.Reads(i, name) == 0 {
